@@ -35,25 +35,27 @@ def example_dir():
     return os.path.join(os.path.dirname(gnpy.__file__), 'example-data')
 
 
-def build_equipment(span, si=None, roadm=None):
-    """example equipment library with the Span (and optionally SI / default Roadm) entries overridden"""
+def build_equipment(span, si=None, roadm=None, multiband=False):
+    """example equipment library (eqpt_config.json, or eqpt_config_multiband.json which also has Multiband_amplifier
+    models) with the Span (and optionally SI / default Roadm) entries overridden"""
     from gnpy.tools.json_io import load_json, _equipment_from_json
     from gnpy.tools.default_edfa_config import DEFAULT_EXTRA_CONFIG
     from pathlib import Path
-    key = json.dumps([span, si, roadm], sort_keys=True)
+    key = json.dumps([span, si, roadm, multiband], sort_keys=True)
     if key not in _EQ_CACHE:
-        if 'base' not in _EQ_CACHE:
-            _EQ_CACHE['base'] = load_json(Path(example_dir()) / 'eqpt_config.json')
-        ej = copy.deepcopy(_EQ_CACHE['base'])
+        bkey = 'base_mb' if multiband else 'base'
+        if bkey not in _EQ_CACHE:
+            _EQ_CACHE[bkey] = load_json(Path(example_dir()) / ('eqpt_config_multiband.json' if multiband else 'eqpt_config.json'))
+        ej = copy.deepcopy(_EQ_CACHE[bkey])
         ej['Span'][0].update(span)
         if si:
             ej['SI'][0].update(si)
         if roadm:
             ej['Roadm'][0].update(roadm)
         if len(_EQ_CACHE) > 400:
-            base = _EQ_CACHE['base']
+            keep = {k: v for k, v in _EQ_CACHE.items() if k in ('base', 'base_mb')}
             _EQ_CACHE.clear()
-            _EQ_CACHE['base'] = base
+            _EQ_CACHE.update(keep)
         _EQ_CACHE[key] = _equipment_from_json(ej, DEFAULT_EXTRA_CONFIG)
     return _EQ_CACHE[key]
 
@@ -337,6 +339,94 @@ def gen_case(rng, kind='valid'):
     return case
 
 
+def place_user_amps(rng, case, keep):
+    """operator amplifiers wherever auto-design would insert one (ROADM -> fibre, fibre -> fibre, fibre -> ROADM), each
+    placed with probability `keep` (1: a fully amplified topology)"""
+    pm = case['span']['power_mode']
+    for ln in case['lines']:
+        els, out = ln['els'], []
+        tag = ln['src'][-1] + ln['dst'][-1]
+        k = 0
+        for i, e in enumerate(els):
+            prev = els[i - 1] if i else None
+            need = e['k'] in 'FR' and ((prev is None and ln['src'].startswith('roadm')) or (prev is not None and prev['k'] in 'FR'))
+            if need and rng.random() < keep:
+                k += 1
+                out.append(gen_amp(rng, f'uamp {tag}{k}', pm))
+            out.append(e)
+        if els and els[-1]['k'] in 'FR' and ln['dst'].startswith('roadm') and rng.random() < keep:
+            out.append(gen_amp(rng, f'uamp {tag}p', pm))
+        ln['els'] = out
+
+
+def gen_entry_case(rng):
+    """the entry point worker_utils.designed_network with its option no_insert_edfas on and off, on fully operator-amplified
+    topologies and on partial ones, fibres with and without their own connector losses, short spans that need padding"""
+    case = gen_case(rng, 'valid')
+    case['kind'] = 'entry_point'
+    sp = case['span']
+    for ln in case['lines']:
+        for e in ln['els']:
+            if e['k'] in 'FR' and rng.random() < 0.35:
+                # a short span: below the padding with the usual connectors
+                e['len'] = rng.choice([5, 12.5, 20, 30, 35])
+                e.pop('units', None)
+            if e['k'] in 'FR' and rng.random() < 0.3:
+                e['con_in'], e['con_out'] = rng.choice([(0.5, 0.5), (0, 0), (0.25, 1), (None, 0.5)])
+    place_user_amps(rng, case, rng.choice([1, 1, 0.8, 0.5]))
+    case['options'] = {'no_insert_edfas': rng.random() < 0.7}
+    return case
+
+
+CBAND = {'f_min': 191.3e12, 'f_max': 195.1e12, 'spacing': 50e9}
+LBAND = {'f_min': 186.3e12, 'f_max': 190.1e12, 'spacing': 50e9}
+
+
+def gen_multiband_case(rng):
+    """C+L line systems on the multiband library: operator-placed Multiband_amplifier elements at some / all / none of the
+    sites of a line, ROADMs with no, one or two node-level design bands (the bands of a degree are then derived from the
+    amplifiers of its OMS), short spans, fused junctions"""
+    span = gen_span(rng)
+    span['max_length'] = rng.choice([150, 120, 100])
+    n = rng.choice([2, 2, 3])
+    names = [chr(65 + i) for i in range(n)]
+    roadms, lines = {}, []
+    for x in names:
+        r = {}
+        db = rng.choice([None, None, [CBAND], [CBAND, LBAND]])
+        if db is not None:
+            r['params'] = {'design_bands': copy.deepcopy(db)}
+        roadms[f'roadm {x}'] = r
+    for a, b in zip(names, names[1:]):
+        for s, t in ((a, b), (b, a)):
+            tag = s + t
+            multi_oms = rng.random() < 0.7 or len(roadms[f'roadm {s}'].get('params', {}).get('design_bands', [])) > 1
+            els = []
+            nf = rng.choice([1, 2, 2, 3])
+
+            def amp(uid):
+                if multi_oms:
+                    return {'k': 'A', 'uid': uid, 'multi': True, 'variety': 'std_medium_gain_multiband'}
+                return {'k': 'A', 'uid': uid, 'variety': rng.choice(['std_medium_gain', 'std_low_gain'])}
+            if rng.random() < 0.3:
+                els.append(amp(f'booster {tag}'))
+            for k in range(nf):
+                f = {'k': 'F', 'uid': f'fiber {tag}{k}', 'len': round(rng.choice([rng.uniform(40, 100), 25, 160]), 3), 'lc': 0.2,
+                     'variety': 'SSMF', 'con_in': None, 'con_out': None, 'att_in': 0}
+                els.append(f)
+                if k + 1 < nf:
+                    r = rng.random()
+                    if r < 0.6:
+                        els.append(amp(f'ila {tag}{k}'))
+                    elif r < 0.7:
+                        els.append({'k': 'U', 'uid': f'fused {tag}{k}', 'loss': 1})
+            if rng.random() < 0.3:
+                els.append(amp(f'preamp {tag}'))
+            lines.append({'src': f'roadm {s}', 'dst': f'roadm {t}', 'els': els})
+    return {'kind': 'multiband', 'equipment': 'multiband', 'span': span, 'roadms': roadms, 'lines': lines, 'shuffle': None,
+            'si': None}
+
+
 def el_json(e):
     if e['k'] in 'FR':
         if e.get('units') == 'm':
@@ -358,9 +448,13 @@ def el_json(e):
         return j
     if e['k'] == 'U':
         return {'uid': e['uid'], 'type': 'Fused', 'params': {'loss': e['loss']}}
-    j = {'uid': e['uid'], 'type': 'Edfa'}
+    j = {'uid': e['uid'], 'type': 'Multiband_amplifier' if e.get('multi') else 'Edfa'}
     if 'variety' in e:
         j['type_variety'] = e['variety']
+    if e.get('multi'):
+        if 'amplifiers' in e:
+            j['amplifiers'] = copy.deepcopy(e['amplifiers'])
+        return j
     if 'op' in e:
         j['operational'] = dict(e['op'])
     return j
@@ -494,7 +588,7 @@ def drive(case):
     from gnpy.tools.json_io import network_from_json
     from gnpy.tools.worker_utils import designed_network
     from gnpy.core import elements as E
-    eq = build_equipment(case['span'], case.get('si'))
+    eq = build_equipment(case['span'], case.get('si'), multiband=case.get('equipment') == 'multiband')
     rec = {}
     tj = topology_json(case)
     try:
@@ -508,7 +602,8 @@ def drive(case):
     rec['roadm_order'] = [n.uid for n in net.nodes() if isinstance(n, E.Roadm)]
     try:
         with RefEstimates() as ref:
-            designed_network(eq, net)
+            # the entry point of the tools (gnpy-transmission-example, gnpy-path-request) with its options
+            designed_network(eq, net, **case.get('options', {}))
         rec['ref_gain'] = ref.seen
     except Exception as e:
         rec['exc'] = f'{type(e).__name__}: {e}'
@@ -702,6 +797,10 @@ def split_base(uid):
     return None
 
 
+def no_insert(case):
+    return bool(case.get('options', {}).get('no_insert_edfas'))
+
+
 def oracle_python(case, rec):
     """graph-level clauses: chains, unique names, reachability, split totals (length, loss, lumped)"""
     fails = []
@@ -751,7 +850,8 @@ def oracle_python(case, rec):
         if len({round(p['len'], 6) for p in parts}) != 1:
             fails.append(('split_unequal', f'{uid}: spans {[p["len"] for p in parts]}', det(uid, b, parts)))
         for p in parts:
-            if b['len'] >= max_m and p['len'] > max_m * (1 + 1e-12):
+            # (with no_insert_edfas nothing is split: the length bound is a guarantee of the insertion step)
+            if b['len'] >= max_m and p['len'] > max_m * (1 + 1e-12) and not no_insert(case):
                 fails.append(('span_above_max', f'{p["uid"]}: {p["len"]} m > max_length {max_m} m', det(uid, b, parts)))
         if b['len'] < max_m and len(parts) != 1:
             fails.append(('split_below_max', f'{uid}: {b["len"]} m < max_length was split in {len(parts)}', det(uid, b, parts)))
@@ -797,9 +897,10 @@ def validator_term(rec, ln, before_names):
     return (f'({"Roadm" if ln["src_kind"] == "R" else "Trx"}, {"Roadm" if ln["dst_kind"] == "R" else "Trx"}, {listlit(els)})')
 
 
-def validator_case_term(rec, before_names, pad):
+def validator_case_term(rec, before_names, pad, lib='LIB', no_ins=False):
     lines = listlit([validator_term(rec, ln, before_names) for ln in rec['after']])
-    return f'check_net LIB {"true" if rec["power_mode"] else "false"} {qlit(pad - 1e-9)} {lines}'
+    return (f'check_net_opt {"true" if no_ins else "false"} {lib} {"true" if rec["power_mode"] else "false"} '
+            f'{qlit(pad - 1e-9)} {lines}')
 
 
 # ------------------------------------------------------------------ known findings (narrow predicates)
@@ -926,8 +1027,10 @@ def run(ctx):
         cases += [gen_case(rng, 'lumped_split') for _ in range(ctx.scale(6, 60))]
         cases += [gen_case(rng, 'raman_long') for _ in range(ctx.scale(2, 20))]
         cases += [gen_case(rng, 'roadm_zero_target') for _ in range(ctx.scale(2, 20))]
+        cases += [gen_entry_case(rng) for _ in range(ctx.scale(24, 300))]
+        cases += [gen_multiband_case(rng) for _ in range(ctx.scale(10, 120))]
     terms, meta = [], []
-    vterms, vmeta, libs = [], [], set()
+    vterms, vmeta, libs = [], [], {}
     import time
     t0 = time.time()
     for case in cases:
@@ -974,7 +1077,8 @@ def run(ctx):
             if not in_model:
                 ctx.count('exception_outside_chain_model')
             if not tie and in_model:
-                terms.append(f'run_case ({cfg_term(cfg)}) {listlit([line_term(ln, dst_first(ln)) for ln in rec["before"]])}')
+                terms.append(f'run_case_opt {"true" if no_insert(case) else "false"} ({cfg_term(cfg)}) '
+                             f'{listlit([line_term(ln, dst_first(ln)) for ln in rec["before"]])}')
                 meta.append((sc, rec, None))
             continue
         # --- oracle, Python part
@@ -987,14 +1091,14 @@ def run(ctx):
         ctx.count('inserted_amps', n_ins)
         ctx.count('split_spans', n_split)
         ctx.count('padded_fibres', n_pad)
-        ctx.case(sc, n_ins > 0 and (n_split > 0 or n_pad > 0 or any(e['k'] == 'U' for ln in rec['before'] for e in ln['els'])))
+        ctx.case(sc, (n_ins > 0 or no_insert(case)) and (n_split > 0 or n_pad > 0 or any(e['k'] == 'U' for ln in rec['before'] for e in ln['els'])))
         # --- oracle, Coq part (proved validator on the implementation's designed lines)
-        vterms.append(validator_case_term(rec, before_names, case['span']['padding']))
+        lib = libs.setdefault(tuple(rec['library']), f'LIB{len(libs)}')
+        vterms.append(validator_case_term(rec, before_names, case['span']['padding'], lib, no_insert(case)))
         vmeta.append((sc, rec['after']))
-        libs.add(tuple(rec['library']))
         # --- correspondence
         if not tie:
-            terms.append(f'run_case ({cfg_term(cfg, sorted(rec['ref_gain'].items()))}) '
+            terms.append(f'run_case_opt {"true" if no_insert(case) else "false"} ({cfg_term(cfg, sorted(rec['ref_gain'].items()))}) '
                          f'{listlit([line_term(ln, dst_first(ln)) for ln in rec["before"]])}')
             meta.append((sc, rec, before_names))
     ctx.extra['t_drive'] = round(time.time() - t0, 1)
@@ -1032,8 +1136,8 @@ def run(ctx):
                                impl=[e['uid'] for e in cand[0]['els']], model=[x[1] for x in m])
     ctx.extra['t_model'] = round(time.time() - t0, 1)
     t0 = time.time()
-    assert len(libs) <= 1
-    lib_def = 'Definition LIB : list string := ' + listlit([strlit(x) + '%string' for x in (sorted(libs)[0] if libs else [])]) + '.'
+    lib_def = '\n'.join(f'Definition {name} : list string := ' + listlit([strlit(x) + '%string' for x in lib]) + '.'
+                        for lib, name in libs.items())
     vout = common.coq_eval(PROP, 'Prelude Model.Chain Run.C08', vterms, per_file=20, tag='valid', prelude=QPRE + '\n' + lib_def)
     for (sc, after), verdicts in zip(vmeta, vout):
         for ln, verdict in zip(after, verdicts.split(';')):
